@@ -52,9 +52,10 @@ class Report:
         self.rule_text = ""
         self.extra = {}
         self.exhaustive = None
+        self.tag = ""
 
     def ob(self, rule, key, ok, detail, where=None, sample=None, nontrivial=True):
-        o = Ob(rule, key, ok, detail, where, sample, nontrivial)
+        o = Ob(rule + self.tag, key, ok, detail, where, sample, nontrivial)
         if not o.ok and any((not x.ok) and x.ident() == o.ident() for x in self.obs):
             return False  # same instance already reported
         self.obs.append(o)
